@@ -510,10 +510,10 @@ func cfgKey(c vmx.Cfg) string {
 var fixedProgs = []string{
 	"2a5", "a5", "2a5k6m9q2", "(2)a(5)", "2A5", "b2", "b", "p", "p3", "B2", "P", "b(1+1)", "f", "F", "1+f", "2c5", "2c5m7", "(2)c(5)", "2C5", "2a5+b2+f+2c5",
 	"x = 2a5", "[2a5, b2, f, 2c5]", "`{2a5} {b2} {f} {2c5}`", "`{% x = 2c5 %}`", "func g() { 2a5 }; g()", "func g(n) { return n + b2 }; g(1)", "&c = 2c5; c", "&c = f; c",
-	"^st x=2a5", "^st x+b2", "^st &c=2c5", "^st x=(f)", "^stx2c5", "{'k': b2}", "1 ? 2a5 : f", "abs(2c5)", "(b2)", "(f)", "[f]kh", "[b, p]", "2a5c", "a5c", "b2x", "fx", "2c5x",
+	"^stx=2a5", "^stx+b2", "^st&c=2c5", "^stx=(f)", "^stx2c5", "^stx:2a5 y=b2", "^st'x 2':f", "{'k': b2}", "1 ? 2a5 : f", "abs(2c5)", "(b2)", "(f)", "[f]kh", "[b, p]", "2a5c", "a5c", "b2x", "fx", "2c5x",
 	"if 1 { 2 } else { 3 }", "i=0; while i<3 { i=i+1 }", "i=0; while i<3 { i=i+1; if i>1 { continue } }", "func g(n) { if n { return 1 } 2 }; g(1)", "return 5", "`{% if 1 { 2 } %}`",
-	"^st x=(`{% if 1 { 2 } %}`)", "&c = `{% func h() { 1 } %}`; c", "3d", "d", "d+1", "2d+d", "[d]", "`{d}`", "func g() { d }; g()", "&c = 3d; c", "^st x=3d", "^st x=(d)",
-	"1|2", "1&2", "x = 1 | 2 & 3", "`{1|2}`", "func g() { 1|2 }; g()", "&c = 1&2; c", "^st x=1|2", "^st x=(1|2)", "1||2", "1&&2", "&x", "&x = 1",
+	"^stx=(`{% if 1 { 2 } %}`)", "^stx=`{% if 1 { 2 } %}`", "&c = `{% func h() { 1 } %}`; c", "3d", "d", "d+1", "2d+d", "[d]", "`{d}`", "func g() { d }; g()", "&c = 3d; c", "^stx=3d", "^stx=(d)", "^stx+d",
+	"1|2", "1&2", "x = 1 | 2 & 3", "`{1|2}`", "func g() { 1|2 }; g()", "&c = 1&2; c", "^stx=1|2", "^stx=(1|2)", "^stx+(1&2)", "^st&c=(1|2)", "1||2", "1&&2", "&x", "&x = 1",
 	"2d6kh1", "d20优势", "1 ? 2 : 3", "0 ? 2, 1 ? 3", "x = 1; x", "[1,2,3][1:2]", "null ?? 1", "{'a':1,}",
 }
 
@@ -705,7 +705,7 @@ func drawSpell(t *rapid.T, cfg vmx.Cfg) string {
 
 var spellContexts = []string{
 	"%s", "%s", "%s", "x = %s", "[%s]", "(%s)", "abs(%s)", "1 + %s", "%s + 1", "1+%s", "-%s", "`{%s}`", "`a{%% %s %%}b`", "\x1e{%s}\x1e",
-	"func g() { %s }; g()", "func g(n) { return %s }; g(1)", "&c = %s; c", "&c = %s", "^st x=%s", "^stx%s", "^st x+%s", "^st x+=%s", "^st x-%s", "^st &c=%s", "^st x=(%s)", "^st x*2=%s", "^st 'x 2':%s",
+	"func g() { %s }; g()", "func g(n) { return %s }; g(1)", "&c = %s; c", "&c = %s", "^stx=%s", "^stx%s", "^stx+%s", "^stx+=%s", "^stx-%s", "^st&c=%s", "^stx=(%s)", "^stx*2=%s", "^st'x 2':%s", "^stx: %s y=%s", "^st力量%s敏捷%s", "^st&c = (%s)", "^stx=%s,y+%s",
 	"{'k': %s}", "{k: %s}", "1 ? %s : 2", "0 ? 1 : %s", "1 ? %s, 1 ? 2", "if 1 { %s }", "if %s { 1 }", "i=0; while i<1 { i=i+1; %s }", "[%s]kh", "[1,%s][0]", "x = [1,2]; x[%s]", "x = [1,2]; x[0:%s]",
 	"%s // c", "// c\n%s", "return %s", "'s' + %s", "%s;%s", "%s\n%s", "1;%s", "x.y = %s", "x = [0]; x[0] = %s", "this.y = %s", "%sd6", "d%s", "2d6k%s", "[1..%s]", "1d6 %s", "toStr(%s)", "g(%s, %s)",
 }
@@ -1250,7 +1250,7 @@ func TestProp(t *testing.T) {
 		})
 
 	run.Check("spell", 40000, 700000,
-		"spellings: 1..7 atoms drawn from whole gated terms (2a5, b2, f, 2c5m7, 3d, (1|2), a template hole holding a statement, ... preferring closed gates), family letters (both cases), modifier letters (m k q d kh kl dh dl min max 优势), numbers, parentheses/brackets, identifier characters (ASCII, CJK, $ _ :, the full-width brackets and digit that count as identifier characters), blanks and operators, placed in one of 57 contexts (bare, assignment, list, call, template holes of both kinds and both delimiters, function body, computed definition, every ^st value form, dict, ternary arms, if/while, index/slice, dice operands); same configurations and oracle as gate. "+ntRule,
+		"spellings: 1..7 atoms drawn from whole gated terms (2a5, b2, f, 2c5m7, 3d, (1|2), a template hole holding a statement, ... preferring closed gates), family letters (both cases), modifier letters (m k q d kh kl dh dl min max 优势), numbers, parentheses/brackets, identifier characters (ASCII, CJK, $ _ :, the full-width brackets and digit that count as identifier characters), blanks and operators, placed in one of 61 contexts (bare, assignment, list, call, template holes of both kinds and both delimiters, function body, computed definition, every ^st value form, dict, ternary arms, if/while, index/slice, dice operands); same configurations and oracle as gate. "+ntRule,
 		func(t *rapid.T, s *rt.Section) {
 			c := Case{Cfg: drawCfg(t)}
 			var ctx string
@@ -1279,7 +1279,7 @@ func TestProp(t *testing.T) {
 			return
 		}
 		alpha := []string{"2", "a", "b", "c", "f", "p", "m", "k", "(", ")", " ", "d"}
-		wrappers := []string{"^st x=%s", "`{%s}`", "func g() { %s }"}
+		wrappers := []string{"^stx=%s", "`{%s}`", "func g() { %s }"}
 		s.Bounds = fmt.Sprintf("alphabet %q: all strings of length 1..%d bare, and of length 1..%d in the wrappers %q; 16 family settings each", alpha, 5-short, 4-short, wrappers)
 		if runEnum(s, run, alpha, 5-short, []string{"%s"}) {
 			runEnum(s, run, alpha, 4-short, wrappers)
